@@ -19,6 +19,14 @@ var (
 )
 
 func sniffHTTPHostHeader(data []byte) (string, error) {
+	host, _, err := sniffHTTPHostHeaderLine(data)
+	return host, err
+}
+
+// sniffHTTPHostHeaderLine is sniffHTTPHostHeader that also reports whether the
+// Host line it used was terminated by CRLF. An unterminated Host line is the
+// tail of the data and its value may continue in bytes not yet received.
+func sniffHTTPHostHeaderLine(data []byte) (host string, terminated bool, err error) {
 	for lineStart := 0; lineStart <= len(data); {
 		lineEnd := bytes.Index(data[lineStart:], httpLineSep)
 		var line []byte
@@ -42,12 +50,12 @@ func sniffHTTPHostHeader(data []byte) (string, error) {
 		if bytes.EqualFold(bytes.TrimSpace(key), httpHeaderHost) {
 			host := string(bytes.TrimSpace(value))
 			if host == "" {
-				return "", ErrNotFound
+				return "", lineEnd >= 0, ErrNotFound
 			}
-			return host, nil
+			return host, lineEnd >= 0, nil
 		}
 	}
-	return "", ErrNotFound
+	return "", true, ErrNotFound
 }
 
 func (s *Sniffer) SniffHttp() (d string, err error) {
@@ -71,5 +79,14 @@ func (s *Sniffer) SniffHttp() (d string, err error) {
 
 	// Now we assume it is an HTTP packet. We should not return NotApplicableError after here.
 
-	return sniffHTTPHostHeader(s.buf.Bytes())
+	host, terminated, err := sniffHTTPHostHeaderLine(s.buf.Bytes())
+	if err == nil && !terminated && s.stream {
+		// The Host line is the still unterminated tail of what has been read so
+		// far (the head was cut by TCP segmentation inside that line). Its value
+		// may continue in the next segment: reporting it now would yield a
+		// truncated name ("exam" for "example.com"). Read on instead; SniffTcp
+		// bounds the wait by the sniffing deadline.
+		return "", ErrNeedMore
+	}
+	return host, err
 }
